@@ -11,7 +11,9 @@ a435  == <<Q(4, 5), Q(3, 5)>>
 a3m45 == <<Q(3, 5), Q(-4, 5)>>
 One1(m) == << Op("Rgate", <<a345>>, <<m>>), OpH("Rgate", <<a345>>, <<m>>), Op("Rgate", <<a3m45>>, <<m>>),
               Op("Sgate", <<Q(4, 3), A0>>, <<m>>), Op("Xgate", <<Q(1, 2)>>, <<m>>), Op("Kgate", <<Z(1)>>, <<m>>),
-              OpH("Kgate", <<Z(1)>>, <<m>>) >>
+              OpH("Kgate", <<Z(1)>>, <<m>>),
+              \* two amounts that agree to four significant digits -- different programs all the same
+              Op("Xgate", <<Q(10001, 1000)>>, <<m>>), Op("Xgate", <<Q(10004, 1000)>>, <<m>>) >>
 Two1(a, b) == << Op("BSgate", <<a345, A0>>, <<a, b>>), Op("CXgate", <<One>>, <<a, b>>), Op("MZgate", <<a345, a435>>, <<a, b>>),
                  Op("S2gate", <<Q(4, 3), A0>>, <<a, b>>), Op("CZgate", <<One>>, <<a, b>>) >>
 RECURSIVE CatM(_, _)
@@ -22,4 +24,14 @@ Init == \E n \in 0 .. Len0 : \E f \in [1 .. n -> 1 .. Len(Alphabet)] : circ = [i
 Next == UNCHANGED circ
 Spec == Init /\ [][Next]_circ
 EmitInv == PrintT(ToJson([circ |-> circ, n |-> NMod]))
+\* Whether a beamsplitter is the same gate with its two modes exchanged depends on its phase only, not on its angle (as long as the
+\* angle is not a multiple of pi/2): checked here over the lattice angles, used by the harness to judge BSgate(pi/4, phi) -- whose
+\* angle has no lattice value -- by the same gate with a lattice angle.
+SwapThetas == << a345, a435, <<Q(5, 13), Q(12, 13)>>, <<Q(-3, 5), Q(4, 5)>> >>
+SwapPhis   == << A0, APi2, a345, APi, <<Zero, Q(-1, 1)>> >>
+BSPair(t, f) == << <<Op("BSgate", <<t, f>>, <<0, 1>>)>>, <<Op("BSgate", <<t, f>>, <<1, 0>>)>> >>
+SwapSymmetryIndependentOfTheta ==
+   \A j \in DOMAIN SwapPhis : \A i1, i2 \in DOMAIN SwapThetas :
+      LET a == BSPair(SwapThetas[i1], SwapPhis[j])  b == BSPair(SwapThetas[i2], SwapPhis[j])
+      IN  SameDen(a[1], a[2], 2) = SameDen(b[1], b[2], 2)
 =============================================================================
